@@ -151,6 +151,22 @@ def clause3(P, res):
             res.holds(rid, b.id, f"hash reads {sorted(seen)} (a subset of what eq compares)", where=f"{b.file}:{b.line}")
 
 
+def key_builders(P):
+    """fibre_ioc helper functions that build an InjectionKey for their own type parameter from their `name` argument (InjectionKey::new::<T>() /
+    new_with_name::<T>(name) on the two arms of a match on the name): calling one is a key construction like the inline match"""
+    out = set()
+    for b in ioc_bodies(P):
+        mk = [e for e in b.calls() if e.callee in ("fibre_ioc::core::InjectionKey::new", "fibre_ioc::core::InjectionKey::new_with_name")]
+        if len(mk) < 2 or re.match(r"add_\w+_internal$|get$", b.name) or b.self_adt == "fibre_ioc::core::InjectionKey":
+            continue
+        tps = set(re.findall(r"::<([A-Z]\w*)>$", " ".join(e.callee_full for e in mk)))
+        named = [e for e in mk if e.method == "new_with_name"]
+        rets = [e for e in mk if e.data["d"][0] == 0] or mk
+        if len(tps) == 1 and named and all(mir.operand_sources(b, e.args[0])[1] for e in named) and "InjectionKey" in (b.locals[0].get("ty") or ""):
+            out.add(b.id)
+    return out
+
+
 def clause4(P, res):
     rid = "C18-4"
     res.rule(rid, "registration overwrites and is keyed by the registered type and name: every add_*_internal reaches `insert` on the providers "
@@ -167,11 +183,13 @@ def clause4(P, res):
             res.violated(rid, key, "registration does not overwrite: it must `insert` into the providers map so that the latest registration wins", where=f"{b.file}:{b.line}")
             continue
         i = ins[0]
-        mk = mir.derives_from_call(b, i.args[1], lambda e: e.callee in ("fibre_ioc::core::InjectionKey::new", "fibre_ioc::core::InjectionKey::new_with_name"))
+        kb = key_builders(P)
+        mk = mir.derives_from_call(b, i.args[1], lambda e: e.callee in ("fibre_ioc::core::InjectionKey::new", "fibre_ioc::core::InjectionKey::new_with_name") or e.callee_resolved in kb or e.callee in kb)
         tparams = set(re.findall(r"::<([A-Z]\w*)>$", " ".join(e.callee_full for e in mk)))
-        named = [e for e in mk if e.method == "new_with_name"]
-        name_ok = bool(named) and all(any(l in mir.operand_sources(b, e.args[0])[1] for l in range(1, b.argc + 1)) for e in named)
-        if len(mk) >= 2 and len(tparams) == 1 and name_ok:
+        named = [e for e in mk if e.method == "new_with_name" or e.callee_resolved in kb or e.callee in kb]
+        name_ok = bool(named) and all(e.args and any(l in mir.operand_sources(b, e.args[0])[1] for l in range(1, b.argc + 1)) for e in named)
+        via_builder = any(e.callee_resolved in kb or e.callee in kb for e in mk)
+        if (len(mk) >= 2 or via_builder) and len(tparams) == 1 and name_ok:
             res.holds(rid, key, f"insert(key) with key = InjectionKey::new[_with_name]::<{list(tparams)[0]}>(name)", where=i.loc, obligations=3,
                       witness=[f"{e.loc}: {e.callee_full}" for e in mk] + [f"insert {i.loc}"])
         else:
@@ -183,9 +201,10 @@ EFFECTS = ("InjectionKey::new", "InjectionKey::new_with_name", "ResolutionGuard:
 
 def effect_seq(P, b):
     seq = []
+    kb = key_builders(P)
     for e in sorted(b.calls(), key=lambda e: e.pos):
         c = e.callee
-        if c.endswith("InjectionKey::new") or c.endswith("InjectionKey::new_with_name"):
+        if c.endswith("InjectionKey::new") or c.endswith("InjectionKey::new_with_name") or c in kb or e.callee_resolved in kb:
             seq.append("key")
         elif c.endswith("ResolutionGuard::new"):
             seq.append("guard")
